@@ -506,6 +506,34 @@ pub fn per_visible_range_constraints(
     Ok(constraints)
 }
 
+/// The value range that the PER-visible constraints of a contained integer subtype leave
+fn contained_subtype_as_value_range(
+    element: &SubtypeElements,
+) -> Result<Option<SubtypeElements>, GrammarError> {
+    match element {
+        SubtypeElements::ContainedSubtype {
+            subtype,
+            extensible,
+        } if !matches!(
+            subtype,
+            ASN1Type::BitString(_)
+                | ASN1Type::OctetString(_)
+                | ASN1Type::CharacterString(_)
+                | ASN1Type::SequenceOf(_)
+                | ASN1Type::SetOf(_)
+        ) =>
+        {
+            let range = per_visible_range_constraints(true, subtype.constraints())?;
+            Ok(Some(SubtypeElements::ValueRange {
+                min: range.min::<i128>().map(ASN1Value::Integer),
+                max: range.max::<i128>().map(ASN1Value::Integer),
+                extensible: *extensible,
+            }))
+        }
+        _ => Ok(None),
+    }
+}
+
 /// 10.3.21 If a constraint that is PER-visible is part of an INTERSECTION construction,
 /// then the resulting constraint is PER-visible, and consists of the INTERSECTION of
 /// all PER-visible parts (with the non-PER-visible parts ignored).
@@ -518,6 +546,27 @@ fn fold_constraint_set(
     char_set: Option<&BTreeMap<usize, char>>,
     range_constraint: bool,
 ) -> Result<Option<SubtypeElements>, GrammarError> {
+    // a contained subtype stands for the values of that type: in a set operation over value
+    // ranges it takes part as the range of its PER-visible constraints
+    if range_constraint && char_set.is_none() {
+        let base = contained_subtype_as_value_range(&set.base)?;
+        let operant = match &*set.operant {
+            ElementOrSetOperation::Element(e) => contained_subtype_as_value_range(e)?
+                .map(|range| Box::new(ElementOrSetOperation::Element(range))),
+            ElementOrSetOperation::SetOperation(_) => None,
+        };
+        if base.is_some() || operant.is_some() {
+            return fold_constraint_set(
+                &SetOperation {
+                    base: base.unwrap_or_else(|| set.base.clone()),
+                    operator: set.operator.clone(),
+                    operant: operant.unwrap_or_else(|| set.operant.clone()),
+                },
+                char_set,
+                range_constraint,
+            );
+        }
+    }
     let folded_operant = match &*set.operant {
         ElementOrSetOperation::Element(e) => e.per_visible().then(|| e.clone()),
         ElementOrSetOperation::SetOperation(s) => {
